@@ -19,11 +19,16 @@ TIE_A = ["code:fuzzylite.engine.Engine.is_ready"]
 RULE = ("engines with 2 inputs, 1-2 outputs (integral or weighted defuzzifier, with/without defuzzifier, aggregation, terms), "
         "1-2 rule blocks with every subset of {conjunction, disjunction, implication, activation} removed, rule sets drawn from "
         "{plain, and, or, and+or, two conclusions, unloaded, disabled, tab/parenthesis-separated operators}; single block x single "
-        "output is enumerated exhaustively, two blocks / two outputs sampled; finite input rows.  non-trivial: the model reports "
+        "output is enumerated exhaustively, two blocks / two outputs sampled; finite input rows.  Rule texts handed to Rule.parse / "
+        "Rule.create / `rule.text =` in varied white-space layouts (tabs, runs of blanks, line breaks before / after a "
+        "connective, margins, trailing comment): enumerated styles x missing-operator subsets, and random layouts.  "
+        "non-trivial: the model reports "
         "at least one readiness error or a processing error; distinct = distinct abstract configuration")
-ASSUMPTIONS = ["operators are detected in the text by the substring tests of the code (' and ', ' or '); rules whose operators are "
-               "separated by tabs or parentheses fall outside the hypothesis 'whitespace-separated tokens' and are only compared "
-               "with the model, never judged by the soundness oracle",
+ASSUMPTIONS = ["operators are detected in the text by the substring tests of the code (' and ', ' or '); antecedent texts ASSIGNED "
+               "DIRECTLY to rule.antecedent.text whose operators are separated by tabs or parentheses fall outside the hypothesis "
+               "'whitespace-separated tokens' and are only compared with the model, never judged by the soundness oracle; a rule "
+               "given as a rule text (Rule.parse / Rule.create / rule.text) is inside the hypothesis in every white-space layout, "
+               "and the oracle reads its connectives from the text as written",
                "outputs keep lock-previous off and no default value (F10 is outside this property)"]
 LEVEL_TEXT = ("Lean theorems over engines with any number of outputs, rule blocks and rules: ready_sound (no readiness error + "
               "activation methods + operators visible in the text => process() raises none of its missing-operator errors), "
@@ -104,8 +109,17 @@ def build(case):
         for r in b["rules"]:
             text, ante = TEMPLATES[r["template"]]
             text = text.format(o0=names[r.get("o0", 0) % len(names)], o1=names[r.get("o1", 1) % len(names)])
-            rule = fl.Rule()
-            rule.parse(text)
+            if r.get("layout") and not ante:
+                text = lay_out(text, r["layout"])
+            via = r.get("layout", {}).get("via", "parse")
+            if via == "create":
+                rule = fl.Rule.create(text)
+            else:
+                rule = fl.Rule()
+                if via == "text":
+                    rule.text = text
+                else:
+                    rule.parse(text)
             if ante:
                 rule.antecedent.text = ante
             rule.enabled = r.get("enabled", True)
@@ -117,6 +131,40 @@ def build(case):
             rb.rules.append(rule)
         e.rule_blocks.append(rb)
     return e
+
+
+def lay_out(text, layout):
+    """the rule text as the user wrote it: the same tokens, separated by the white space of the layout (blanks, runs of
+    blanks, tabs, line breaks), with leading / trailing white space and an optional trailing comment"""
+    toks = text.split()
+    seps = layout["seps"]
+    out = layout.get("lead", "") + toks[0]
+    for i, t in enumerate(toks[1:]):
+        out += seps[i % len(seps)] + t
+    return out + layout.get("trail", "") + layout.get("comment", "")
+
+
+def written_ops(case):
+    """per block, per rule: the connectives among the white-space separated tokens of the antecedent AS WRITTEN in the rule
+    text handed to Rule.parse / Rule.create / `rule.text = ...` (the hypothesis of the property speaks about how the rules
+    are written), or None for the templates whose antecedent text is assigned directly to `rule.antecedent.text`"""
+    names = [o["name"] for o in case["outputs"]] or ["o1"]
+    out = []
+    for b in case["blocks"]:
+        rs = []
+        for r in b["rules"]:
+            text, ante = TEMPLATES[r["template"]]
+            if ante:
+                rs.append(None)
+                continue
+            text = text.format(o0=names[r.get("o0", 0) % len(names)], o1=names[r.get("o1", 1) % len(names)])
+            if r.get("layout"):
+                text = lay_out(text, r["layout"])
+            toks = text.split("#")[0].split()
+            toks = toks[1:toks.index("then")] if "then" in toks else toks[1:]
+            rs.append({t for t in toks if t in ("and", "or")})
+        out.append(rs)
+    return out
 
 
 def tree_ops(node, acc):
@@ -216,16 +264,29 @@ def spaced(cfg):
     return all((not r[0]) or ((not r[4] or r[2]) and (not r[5] or r[3])) for b in cfg[2] for r in b[5])
 
 
+def as_written(case, cfg):
+    """the configuration with the flags `the text shows an and / an or` taken from the rule text as written (white-space
+    separated tokens, whatever the white space) for every rule that was given as a rule text; rules whose antecedent text
+    was assigned directly keep the flags of the stored text.  On a library that stores the tokens re-joined with single
+    blanks both readings coincide."""
+    ops = written_ops(case)
+    blocks = []
+    for b, wb in zip(cfg[2], ops):
+        rules = [r if w is None else r[:2] + [int("and" in w), int("or" in w)] + r[4:] for r, w in zip(b[5], wb)]
+        blocks.append(b[:5] + [rules])
+    return [cfg[0], cfg[1], blocks]
+
+
 def oracle(case):
     """the property on the implementation: soundness and completeness, judged from the live objects"""
     e, ready, errs, raised = observe(case)
-    cfg = abstract(e)
+    cfg = as_written(case, abstract(e))
     has_act = all(b[4] for b in cfg[2])
     if ready != (not errs):
         return False, f"is_ready returned {ready} with errors {errs}"
     if ready and has_act and spaced(cfg) and raised:
         return False, (f"is_ready() reported the engine ready (no errors), every rule block has an activation method and the "
-                       f"rules are blank-separated, but process() raised {raised[0]}: {raised[2]}")
+                       f"rules are written with white-space separated tokens, but process() raised {raised[0]}: {raised[2]}")
     # completeness: what the loaded rules / outputs need (operators as the property's hypothesis lets the check see them:
     # blank-separated; tab / parenthesis separated operators are outside the hypothesis and only compared with the model)
     for bi, b in enumerate(cfg[2]):
@@ -248,7 +309,8 @@ def key(case):
     sig = []
     for b in case["blocks"]:
         ops = "".join(k[0] for k in ("conjunction", "disjunction", "implication") if not b[k]) or "-"
-        sig.append(f"missing[{ops}]rules[{','.join(sorted({r['template'] for r in b['rules']}))}]")
+        lay = "layout" if any(r.get("layout") for r in b["rules"]) else ""
+        sig.append(f"missing[{ops}]rules[{','.join(sorted({r['template'] for r in b['rules']}))}]{lay}")
     return ";".join(sig)
 
 
@@ -317,6 +379,72 @@ def random_case(rng, general=True):
             "values": [round(rng.random(), 3), round(rng.random(), 3)]}
 
 
+# ---- layouts of the rule text: the property holds `whatever the white space between the tokens`
+SEPS = [" ", "  ", "\t", "\n", "\n        ", "\t\t", "     ", "\r\n", " \t "]
+STYLES = ["tabs", "double", "wrap-after", "wrap-before", "tab-after", "tab-before", "margins", "comment"]
+
+
+def styled_layout(text, style):
+    """a layout in which only the neighbourhood of the connectives / keywords is special (a long rule wrapped after or
+    before its connective, a tab next to it), or every gap is (tabs, double blanks), or only the margins are"""
+    toks = text.split()
+    gaps = len(toks) - 1
+    if style == "tabs":
+        return {"seps": ["\t"] * gaps}
+    if style == "double":
+        return {"seps": ["  "] * gaps}
+    if style == "margins":
+        return {"seps": [" "] * gaps, "lead": "  \t", "trail": "  \n"}
+    if style == "comment":
+        return {"seps": [" "] * gaps, "comment": " # applies when a and b or none"}
+    seps = []
+    for i in range(gaps):
+        after, before = toks[i] in ("and", "or", "then"), toks[i + 1] in ("and", "or", "then")
+        special = "\n        " if style.startswith("wrap") else "\t"
+        seps.append(special if (after if style.endswith("after") else before) else " ")
+    return {"seps": seps}
+
+
+def template_text(r, names=("o1", "o2")):
+    return TEMPLATES[r["template"]][0].format(o0=names[r.get("o0", 0) % len(names)], o1=names[r.get("o1", 1) % len(names)])
+
+
+def layout_cases():
+    """one block x one output: every subset of {conjunction, disjunction} removed x the rule sets that use a connective x
+    every layout style: readiness predicts whether process() raises, whatever the white space of the rule text"""
+    for style in STYLES:
+        for conj, disj in itertools.product([1, 0], repeat=2):
+            for rs in (["and"], ["or"], ["andor"], ["orand"], ["plain", "or"], ["and", "two"]):
+                rules = mk_rules(rs)
+                for i, r in enumerate(rules):
+                    r["layout"] = dict(styled_layout(template_text(r, ["o1"]), style), via=["parse", "text", "create"][i % 3])
+                yield {"inputs": 2,
+                       "outputs": [{"name": "o1", "defuzzifier": "Centroid", "aggregation": True, "shape": "tri"}],
+                       "blocks": [{"name": "rb", "conjunction": bool(conj), "disjunction": bool(disj), "implication": True,
+                                   "activation": "General", "rules": rules}],
+                       "values": [0.25, 0.625]}
+
+
+def random_layout_case(rng):
+    """a random engine whose rule texts are written with random white space between the tokens"""
+    case = random_case(rng, rng.random() < 0.7)
+    for b in case["blocks"]:
+        for r in b["rules"]:
+            if TEMPLATES[r["template"]][1] is None and rng.random() < 0.85:
+                gaps = len(TEMPLATES[r["template"]][0].split()) - 1
+                if rng.random() < 0.4:
+                    lay = styled_layout(TEMPLATES[r["template"]][0], rng.choice(STYLES))
+                else:
+                    lay = {"seps": [rng.choice(SEPS) for _ in range(gaps)]}
+                    if rng.random() < 0.3:
+                        lay["lead"] = rng.choice([" ", "\t", "\n  "])
+                    if rng.random() < 0.3:
+                        lay["trail"] = rng.choice([" ", "\t", "\n"])
+                lay["via"] = rng.choice(["parse", "text", "create"])
+                r["layout"] = lay
+    return case
+
+
 def corpus_cases():
     d = os.path.join(C.VERIF, "corpus", PID)
     for p in sorted(glob.glob(os.path.join(d, "*.json"))):
@@ -341,6 +469,9 @@ def correspond(ctx):
     cases += [(c, "activation-methods") for c in activation_cases()]
     cases += [(random_case(ctx.rng, True), "random-general") for _ in range(ctx.scale(1500, 60000))]
     cases += [(random_case(ctx.rng, False), "random-any-activation") for _ in range(ctx.scale(500, 20000))]
+    # rule texts in varied white-space layouts (enumerated styles, then random ones drawn after the streams above)
+    cases += [(c, "layout-styles") for c in layout_cases()]
+    cases += [(random_layout_case(ctx.rng), "random-layout") for _ in range(ctx.scale(500, 15000))]
     ctx.notes["exhaustive"] = True
     obs, lines = [], []
     for case, kind in cases:
@@ -387,12 +518,17 @@ def correspond(ctx):
 
 
 def search(ctx):
-    for case in itertools.chain(corpus_cases(), exhaustive_cases(), activation_cases()):
+    for case in itertools.chain(corpus_cases(), exhaustive_cases(), activation_cases(), layout_cases()):
         ok, d = oracle(case)
         if not ok:
             return [(case, d)]
     for _ in range(3000):
         case = random_case(ctx.rng, False)
+        ok, d = oracle(case)
+        if not ok:
+            return [(case, d)]
+    for _ in range(1000):
+        case = random_layout_case(ctx.rng)
         ok, d = oracle(case)
         if not ok:
             return [(case, d)]
